@@ -528,40 +528,132 @@ def _is_state(st, bufvar, cnt_kind):
     return bool(set(_targets(st)) & (set(cnt_kind) | {bufvar}))
 
 
+def _haystack_kind(r, param, aliases, where):
+    """what a substring test looks into: 'raw' = the handler's argument, 'lower' = its .lower() (directly or through a local
+    alias assigned once from it); anything else is not understood"""
+    if isinstance(r, ast.Name):
+        if r.id == param:
+            return "raw"
+        if r.id in aliases:
+            return aliases[r.id]
+        raise TranslateError(f"{where}: substring test on unknown variable {r.id!r}")
+    if isinstance(r, ast.Call) and isinstance(r.func, ast.Attribute) and r.func.attr == "lower" and not r.args and not r.keywords:
+        inner = _haystack_kind(r.func.value, param, aliases, where)
+        return "lower" if inner in ("raw", "lower") else inner
+    raise TranslateError(f"{where}: unrecognised haystack in a substring test: {ast.dump(r)[:120]}")
+
+
+def _table_raises(table, output: bytes) -> bool:
+    """the meaning of an extracted table (python twin of Auth.fatalMsg)"""
+    low = output.lower()
+    return any(needle in (low if lowered else output) for needle, lowered in table)
+
+
+def _probe_handler(table, literals):
+    """BEHAVIOURAL validation of the extracted table against the live `_ssh_message_handler`: for every bytes literal that occurs
+    in the handler or in a same-class helper it calls (one level), in several spellings and mutilations, the real method must
+    raise ScrapliAuthenticationFailed exactly when the table says so.  A table that is incomplete, has a wrong case flag or
+    misses a literal tested elsewhere cannot pass this."""
+    import logging
+    from vlib.common import use_repo
+    use_repo()
+    from scrapli.channel.base_channel import BaseChannel
+    from scrapli.exceptions import ScrapliAuthenticationFailed
+    inst = object.__new__(BaseChannel)
+    lg = logging.getLogger("verif.c09.probe")
+    lg.disabled = True
+    inst.logger = lg
+    probes = {b"", b"x", b"login: ", b"Password:"}
+    for lit in set(literals) | {n for n, _ in table}:
+        for v in (lit, lit.lower(), lit.upper(), lit.title(), lit.swapcase()):
+            probes |= {v, b"xx " + v + b" yy\n", v[1:], v[:-1], v[: len(v) // 2] + b"#" + v[len(v) // 2:], v.replace(b" ", b"  ")}
+    for pr in sorted(probes):
+        try:
+            BaseChannel._ssh_message_handler(inst, output=pr)
+            real = False
+        except ScrapliAuthenticationFailed:
+            real = True
+        except Exception as e:   # the handler must not raise anything else
+            raise TranslateError(f"{BASE}: _ssh_message_handler({pr!r}) raised {type(e).__name__}: {e}")
+        if real != _table_raises(table, pr):
+            raise TranslateError(f"{BASE}: extracted message table disagrees with the live _ssh_message_handler on {pr!r}: "
+                                 f"real raises={real}, table says {not real}")
+    return len(probes)
+
+
 def fatal_table():
-    """(needle, tested on output.lower()?) for every substring test of the if/elif chain of _ssh_message_handler"""
-    func = _func(_cls(BASE, "BaseChannel"), "_ssh_message_handler")
-    chain = [s for s in func.body if isinstance(s, ast.If)]
+    """(needle, tested on output.lower()?) for every substring test of the if/elif chain of _ssh_message_handler.
+    Structural extraction (local aliases of `output.lower()` are followed; what is not understood raises TranslateError, never a
+    partial table), then behavioural validation on the live method (_probe_handler)."""
+    cls = _cls(BASE, "BaseChannel")
+    func = _func(cls, "_ssh_message_handler")
+    params = [a.arg for a in func.args.posonlyargs + func.args.args + func.args.kwonlyargs if a.arg != "self"]
+    if len(params) != 1:
+        raise TranslateError(f"{BASE}: _ssh_message_handler takes {params}, expected one argument")
+    param = params[0]
+    body = [st for st in func.body if not (isinstance(st, ast.Expr) and isinstance(st.value, ast.Constant))]   # docstring
+    chain = [st for st in body if isinstance(st, ast.If)]
     if len(chain) != 2:
         raise TranslateError(f"{BASE}: _ssh_message_handler: expected the elif chain and the final `if msg`")
     first, final = chain
-    if not any(isinstance(x, ast.Raise) and getattr(x.exc.func, "id", "") == "ScrapliAuthenticationFailed" for x in ast.walk(final)):
-        raise TranslateError(f"{BASE}: _ssh_message_handler does not raise ScrapliAuthenticationFailed at the end")
+    # statements before the chain: `msg = ""` and aliases `<name> = <param>.lower()`; nothing else
+    aliases, msgvar = {}, None
+    for st in body[: body.index(first)]:
+        if isinstance(st, ast.Assign) and len(st.targets) == 1 and isinstance(st.targets[0], ast.Name):
+            name = st.targets[0].id
+            if isinstance(st.value, ast.Constant) and st.value.value == "":
+                msgvar = name
+                continue
+            if name in (param, msgvar) or name in aliases:
+                raise TranslateError(f"{BASE}:{st.lineno}: _ssh_message_handler reassigns {name}")
+            aliases[name] = _haystack_kind(st.value, param, aliases, f"{BASE}:{st.lineno}")
+            continue
+        raise TranslateError(f"{BASE}:{st.lineno}: unexpected statement before the message tests of _ssh_message_handler")
+    if msgvar is None:
+        raise TranslateError(f"{BASE}: _ssh_message_handler does not start with an empty message")
+    if any(st is not final for st in body[body.index(first) + 1:]):
+        raise TranslateError(f"{BASE}: _ssh_message_handler: statements between / after the two ifs")
+    if not (isinstance(final.test, ast.Name) and final.test.id == msgvar and not final.orelse
+            and any(isinstance(x, ast.Raise) and isinstance(x.exc, ast.Call) and getattr(x.exc.func, "id", "") == "ScrapliAuthenticationFailed"
+                    for x in final.body)):
+        raise TranslateError(f"{BASE}: _ssh_message_handler does not end in `if {msgvar}: raise ScrapliAuthenticationFailed`")
     out, node = [], first
     while True:
         tests = node.test.values if isinstance(node.test, ast.BoolOp) and isinstance(node.test.op, ast.Or) else [node.test]
         for t in tests:
             if not (isinstance(t, ast.Compare) and len(t.ops) == 1 and isinstance(t.ops[0], ast.In)
-                    and isinstance(t.left, ast.Constant) and isinstance(t.left.value, bytes)):
+                    and isinstance(t.left, ast.Constant) and isinstance(t.left.value, bytes) and t.left.value):
                 raise TranslateError(f"{BASE}:{t.lineno}: unrecognised test in _ssh_message_handler")
-            r = t.comparators[0]
-            if isinstance(r, ast.Name):
-                lowered = False
-            elif isinstance(r, ast.Call) and isinstance(r.func, ast.Attribute) and r.func.attr == "lower" and isinstance(r.func.value, ast.Name):
-                lowered = True
-            else:
-                raise TranslateError(f"{BASE}:{t.lineno}: unrecognised haystack in _ssh_message_handler")
-            out.append((t.left.value, lowered))
-        # every branch must set msg to something non-empty
-        sets = [s for s in node.body if isinstance(s, ast.Assign) and getattr(s.targets[0], "id", "") == "msg"]
-        if not sets or (isinstance(sets[0].value, ast.Constant) and not sets[0].value.value):
-            raise TranslateError(f"{BASE}:{node.lineno}: branch of _ssh_message_handler does not set msg")
+            kind = _haystack_kind(t.comparators[0], param, aliases, f"{BASE}:{t.lineno}")
+            out.append((t.left.value, kind == "lower"))
+        # the branch must leave msg non-empty: first a plain assignment of something non-empty, afterwards msg may only grow;
+        # no way out of the branch other than falling through
+        sets = [x for x in node.body if isinstance(x, ast.Assign) and msgvar in _targets(x)]
+        if not sets or sets[0] is not node.body[0] or len(sets) != 1 or (isinstance(sets[0].value, ast.Constant) and not sets[0].value.value):
+            raise TranslateError(f"{BASE}:{node.lineno}: branch of _ssh_message_handler does not start by setting {msgvar} once")
+        for x in node.body:
+            for y in ast.walk(x):
+                if isinstance(y, (ast.Return, ast.Raise, ast.Continue, ast.Break)):
+                    raise TranslateError(f"{BASE}:{y.lineno}: branch of _ssh_message_handler leaves the function")
+                if isinstance(y, ast.AugAssign) and msgvar in _targets(y) and not isinstance(y.op, ast.Add):
+                    raise TranslateError(f"{BASE}:{y.lineno}: {msgvar} is not only appended to")
+                if isinstance(y, (ast.Assign, ast.AugAssign)) and (set(_targets(y)) & ({param} | set(aliases))):
+                    raise TranslateError(f"{BASE}:{y.lineno}: branch of _ssh_message_handler reassigns its input")
         if len(node.orelse) == 1 and isinstance(node.orelse[0], ast.If):
             node = node.orelse[0]
         elif not node.orelse:
             break
         else:
             raise TranslateError(f"{BASE}:{node.lineno}: else branch in _ssh_message_handler")
+    if not out:
+        raise TranslateError(f"{BASE}: no message test found in _ssh_message_handler")
+    # literals for the probe: every bytes constant of the handler and of the same-class helpers it calls (one level deep)
+    lits = [n.value for n in ast.walk(func) if isinstance(n, ast.Constant) and isinstance(n.value, bytes) and n.value]
+    for name, _call in _calls(func):
+        for m in cls.body:
+            if isinstance(m, (ast.FunctionDef, ast.AsyncFunctionDef)) and m.name == name and m is not func:
+                lits += [n.value for n in ast.walk(m) if isinstance(n, ast.Constant) and isinstance(n.value, bytes) and n.value]
+    _probe_handler(out, lits)
     return out
 
 
